@@ -20,7 +20,9 @@ RULE = ("Hypothesis draws a square operator with simple, well-separated spectrum
         "answer. Non-trivial: indefinite, non-normal or complex input, or k < n, or cap != n."
         " Further: Krylov tolerance 0, one eigenvalue exactly 0 or 1e-9, the algorithm object used before on a smaller"
         " operator, explicit start vectors of another dtype / precision (results of a double-precision operator must"
-        " be double precision).")
+        " be double precision)."
+        " Round 5: a dominant eigenvalue (ratio 0.34) so that power iteration is inside its judged regime, operators"
+        " rescaled by 10^-8..10^3.")
 ASSUMPTIONS = [
     "eigenpair residual tolerance 1e-6 |A||v| (1e-3 relative for PowerIteration on dominance ratio <= 0.5); selection compared at 1e-6 |A| cond(X)",
     "AssertionError from the selected rule (Eigh/Lanczos on undeclared operators, PowerIteration with k != 1) is an in-contract refusal",
@@ -40,9 +42,15 @@ def cases(draw, tier):
     k = draw(st.integers(1, n))
     which = draw(st.sampled_from(["LM", "SM", "omitted"]))
     fn = draw(st.sampled_from(["eig", "eig", "eig", "eigmax", "eigmin"]))
+    force_dominant = False
+    if alg in ("omitted", "Auto") and kind in ("herm_def", "herm_indef") and draw(st.integers(1, 3)) == 1:
+        k, which, fn, force_dominant = 1, draw(st.sampled_from(["LM", "omitted"])), draw(st.sampled_from(["eig", "eigmax"])), True
     if alg == "PowerIteration":
         k, which = 1, draw(st.sampled_from(["LM", "omitted"]))
         fn = draw(st.sampled_from(["eig", "eigmax"]))
+        force_dominant = True
+        if kind not in ("herm_def", "herm_indef"):
+            kind = draw(st.sampled_from(["herm_def", "herm_indef"]))  # (real spectrum: the regime in which it is judged)
     return {"kind": kind, "n": n, "alg": alg, "k": k, "which": which, "fn": fn, "seed": draw(st.integers(0, 10**6)),
             "cplx": draw(st.booleans()), "cap": draw(st.sampled_from(["n", "n", "n+3"])), "declare": draw(st.booleans()),
             # Krylov tolerance (0 = never stop early) and an eigenvalue that is exactly zero or 1e-9 of the others
@@ -50,7 +58,7 @@ def cases(draw, tier):
             # the algorithm object is first used on a smaller operator; an explicit start vector of another dtype / precision
             "warm_small": draw(st.integers(1, 4)) == 1, "start": draw(st.sampled_from([None, None, None, "same", "c64", "f32"])),
             # the whole operator rescaled by 10^sscale (eigenvectors unchanged, eigenvalues scale with it)
-            "sscale": draw(st.sampled_from([0, 0, 0, -3, -2, 3])), "dominant": draw(st.booleans())}
+            "sscale": draw(st.sampled_from([0, -3, -6, -8, 3] if force_dominant else [0, 0, 0, -3, -2, 3])), "dominant": draw(st.booleans()) or force_dominant}
 
 
 def strategy(tier):
